@@ -18,6 +18,99 @@ fn lock_machine_id_path() -> Option<std::fs::File> {
     Some(f)
 }
 
+#[allow(clippy::too_many_arguments)]
+fn handle_case(
+    out: &mut Out,
+    rng: &mut Prng,
+    conn: &mut rustbus::connection::ll_conn::DuplexConn,
+    server: &mut std::os::unix::net::UnixStream,
+    first_id: &mut Option<String>,
+    msg: &mut MarshalledMessage,
+    sender: &str,
+    i: Option<&str>,
+    m: Option<&str>,
+    sample: bool,
+) {
+    // the handler as a whole against the model (result, the reply with its correlation fields and body, the id
+    // file before and after); every fourth time from an empty store, every third time on a connection whose
+    // peer is gone (the send is refused)
+    let read_cell = || std::fs::read_to_string("/tmp/dbus_machine_uuid").ok();
+    if rng.below(4) == 0 {
+        let _ = std::fs::remove_file("/tmp/dbus_machine_uuid");
+        *first_id = None;
+    }
+    let dead = rng.below(3) == 0;
+    let before = read_cell();
+    let serial2 = 1 + rng.below(u32::MAX as u64 - 1) as u32;
+    msg.dynheader.serial = NonZeroU32::new(serial2);
+    let (res2, written2) = if dead {
+        let (mut c2, s2) = peer::connect_pair(false);
+        drop(s2);
+        (rustbus::peer::handle_peer_message(msg, &mut c2), Vec::new())
+    } else {
+        let r = rustbus::peer::handle_peer_message(msg, conn);
+        (r, peer::drain(server))
+    };
+    let after = read_cell();
+    // the draw is the environment's: when an id was created, the model is given the draw that prints as it
+    let (mut d1, mut d2, mut d3) = (0u64, 0u32, 0u32);
+    if before.is_none() {
+        if let Some(a) = &after {
+            if is_hex32(a) {
+                d1 = u64::from_str_radix(&a[0..16], 16).unwrap();
+                d2 = u32::from_str_radix(&a[16..24], 16).unwrap();
+                d3 = u32::from_str_radix(&a[24..32], 16).unwrap();
+            }
+        }
+    }
+    let cell_s = |c: &Option<String>| c.clone().unwrap_or("~".into());
+    let req2 = format!(
+        "c20.handle {} {} {} {} {} {} {} {} {}",
+        serial2,
+        cps(sender),
+        i.map(cps).unwrap_or("~".into()),
+        m.map(cps).unwrap_or("~".into()),
+        cell_s(&before),
+        d1,
+        d2,
+        d3,
+        if dead { 0 } else { 1 }
+    );
+    let frames2 = peer::split_frames(&written2).unwrap_or_default();
+    let mut reps = Vec::new();
+    for f in &frames2 {
+        let r = peer::decode_frame(f).expect("reply decodes");
+        let body = if r.get_buf().is_empty() { "~".to_string() } else { r.body.parser().get::<String>().unwrap_or("?".into()) };
+        reps.push(format!(
+            "[rs={} dest={} err={} serial={} body={}]",
+            r.dynheader.response_serial.map(|x| x.get().to_string()).unwrap_or("~".into()),
+            r.dynheader.destination.clone().unwrap_or("~".into()),
+            !matches!(r.typ, rustbus::MessageType::Reply),
+            "~",
+            body
+        ));
+        if body != "~" && first_id.is_none() {
+            *first_id = Some(body.clone());
+        }
+    }
+    let rs = match &res2 {
+        Ok(b) => format!("ok:{}", b),
+        Err(_) => "senderr".to_string(),
+    };
+    let obs2 = format!("{} n={} {} cell={}", rs, frames2.len(), reps.join(" "), cell_s(&after));
+    if written2.len() > 0 && frames2.is_empty() {
+        out.violation(&req2, "bytes written that are not whole frames");
+    }
+    out.hit(match (&res2, dead, before.is_none()) {
+        (Ok(true), _, true) => "handle_replied_fresh_store",
+        (Ok(true), _, false) => "handle_replied_stored",
+        (Ok(false), _, _) => "handle_nothandled",
+        (Err(_), _, true) => "handle_refused_send_fresh_store",
+        (Err(_), _, false) => "handle_refused_send_stored",
+    });
+    out.case(&req2, &obs2, sample);
+}
+
 pub fn run(cfg: &Cfg) {
     let _path_lock = lock_machine_id_path();
     let mut out = Out::new(&cfg.outdir);
@@ -153,8 +246,23 @@ pub fn run(cfg: &Cfg) {
                 }
                 out.hit(if obs.starts_with("replied") { "peer_replied" } else { "peer_nothandled" });
                 out.case(&req, &obs, round == 0);
+
+                handle_case(&mut out, &mut rng, &mut conn, &mut server, &mut first_id, &mut msg, &sender, *i, *m, round == 0);
             }
         }
+    }
+    // 3b. the same whole-handler comparison, weighted to the handled calls: fresh / stored id x live / dead connection
+    let n_handle = if cfg.thorough { 600 } else { 60 };
+    for k in 0..n_handle {
+        let i = if rng.below(8) == 0 { *rng.pick(&ifaces) } else { Some("org.freedesktop.DBus.Peer") };
+        let m = if rng.below(6) == 0 { *rng.pick(&members) } else if k % 2 == 0 { Some("GetMachineId") } else { Some("Ping") };
+        let sender = format!(":1.{}", rng.below(1000));
+        let mut msg: MarshalledMessage = MessageBuilder::new().call(m.unwrap_or("X").to_string()).at(sender.clone()).on("/a/b").build();
+        msg.dynheader.interface = i.map(|s| s.to_string());
+        msg.dynheader.member = m.map(|s| s.to_string());
+        msg.dynheader.sender = Some(sender.clone());
+        msg.dynheader.destination = None;
+        handle_case(&mut out, &mut rng, &mut conn, &mut server, &mut first_id, &mut msg, &sender, i, m, k < 20);
     }
     // 4. get_machine_id cell model, tied through repeated creation on the real file
     let creations = if cfg.thorough { 200 } else { 20 };
